@@ -236,6 +236,12 @@ CS(P, ctx, s) ==
         (LET l == TLV(P, ctx.sc, s.lv)
              r == TE(P, ctx.sc, s.e)
          IN  X(ctx, l.bad \cup r.bad \cup (IF l.c THEN {"const"} ELSE {}) \cup Need(Assignable(l.t, r.t), <<l.t, r.t>>, "type:assign")))
+    ELSE IF s.k = "cset" THEN       \* compound assignment: the rule of its expansion  Speichere (x op e) in x
+        (LET l == TLV(P, ctx.sc, s.lv)
+             r == TE(P, ctx.sc, s.e)
+             u == IF s.op = "neg" THEN (IF IsB(l.t, "W") THEN UnType("not", l.t) ELSE UnType("neg", l.t)) ELSE BinType(s.op, l.t, r.t)
+             t == IF IsErr(l.t) \/ IsErr(r.t) THEN ERR ELSE u.t
+         IN  X(ctx, l.bad \cup r.bad \cup u.bad \cup (IF l.c THEN {"const"} ELSE {}) \cup Need(Assignable(l.t, t), <<l.t, t>>, "type:assign")))
     ELSE IF s.k = "print" THEN (LET r == TE(P, ctx.sc, s.e) IN X(ctx, r.bad \cup Need(Printable(r.t), <<r.t>>, "type:argument")))
     ELSE IF s.k = "expr" THEN X(ctx, TE(P, ctx.sc, s.e).bad)
     ELSE IF s.k = "if" THEN
